@@ -537,7 +537,7 @@ theorem getElem?_isSome {α : Type} {l : List α} {i : Nat} (h : i < l.length) :
 theorem cmTail_tot {reorg sc ln : Nat} (hall : ∀ x ∈ headers, x.tdOk = true)
     (hlen : headers.length = reorg + sc + ln) (hpos : sc ≠ 0 → 0 < ln)
     (hlast : last.number ≤ U64_MAX) :
-    Tot (fun _ => True) (cmTail c headers last reorg sc ln) := by
+    Tot (fun _ => True) (cmTail lastN c headers last reorg sc ln) := by
   unfold cmTail
   split
   · exact Tot.pure trivial
@@ -559,7 +559,11 @@ theorem cmTail_tot {reorg sc ln : Nat} (hall : ∀ x ∈ headers, x.tdOk = true)
         ⟨_, by unfold addU64; rw [if_pos (by omega)], trivial⟩ ?_
       intro l1 _ _
       split
-      · exact Tot.pure trivial
+      · -- `!has_all_blocks`: `checkNoSampled` is a pure function of values already at hand
+        -- (`headers[reorg_count]` again, the first requested difficulty as an `Option`)
+        split
+        · exact Tot.pure trivial
+        · exact Tot.pure trivial
       · exact Tot.pure trivial
     · exact Tot.pure trivial
   · rename_i hs0
